@@ -6,7 +6,10 @@ CHECKS=${@:-$P}
 cd /repo || exit 2
 git diff --quiet || { echo "/repo has local changes"; exit 2; }
 git apply "$D/patch.diff" || { echo "patch does not apply"; exit 2; }
+# evidence files are rewritten by every run: keep the ones of the unchanged tree
+rm -rf /verif/.work/evidence.keep && cp -r /verif/evidence /verif/.work/evidence.keep
 for c in $CHECKS; do
   ( cd /verif && VERIF_REPO=/repo timeout 3000 ./check $c 2>&1 | grep -v 'obligation FAILED: theorem' | cut -c1-500 | tail -6 ; echo "== $c exit ${PIPESTATUS[0]}" )
 done
 git -C /repo checkout -- .
+rm -rf /verif/evidence && mv /verif/.work/evidence.keep /verif/evidence
